@@ -509,8 +509,34 @@ def check_case(t, v, idx):
                         % (label, type(e).__name__), repr(e)[:200]))
     # ---- the same bytes given as bytearray / memoryview / binary stream
     if idx % 7 == 0:
+        def at_offset(data):
+            st = io.BytesIO(b"\x07hdr" + data)
+            st.seek(4)
+            return st
+
+        class Pipe(io.RawIOBase):
+            """a binary stream that cannot seek"""
+
+            def __init__(self, data):
+                self._d, self._i = data, 0
+
+            def readable(self):
+                return True
+
+            def seekable(self):
+                return False
+
+            def readinto(self, buf):
+                n_ = min(len(buf), len(self._d) - self._i)
+                buf[:n_] = self._d[self._i:self._i + n_]
+                self._i += n_
+                return n_
+
         for form, mk in (("bytearray", bytearray), ("memoryview", memoryview),
-                         ("stream", io.BytesIO)):
+                         ("stream", io.BytesIO),
+                         ("stream-not-at-offset-0", at_offset),
+                         ("unseekable-stream",
+                          lambda d_: io.BufferedReader(Pipe(d_)))):
             errs = []
             try:
                 d = br.dec(mk(b), tname, True)
@@ -685,11 +711,72 @@ def instance_isolation():
     return out
 
 
+def reentrancy_probe():
+    """The lookup function and custom codecs are user code and may call back
+    into the serializer (a forwarding table decoded lazily inside the lookup;
+    a codec that reads another table).  The outer decode must still resolve
+    every attached UUID."""
+    br = bridge()
+    g = br.g
+    ser_mod = __import__("gtirb.serialization", fromlist=["x"])
+    out = []
+    ids = list(ATTACHED)
+    outer = br.enc(ids + ids, "sequence<UUID>")
+    inner = br.enc(ids[0], "UUID")
+    calls = [0]
+
+    def lookup(u):
+        calls[0] += 1
+        if calls[0] in (1, 3):
+            br.ser.decode(inner, "UUID", br.ir.get_by_uuid)
+            br.ser.decode(inner, "UUID", None)
+        return br.ir.get_by_uuid(u)
+
+    try:
+        v = br.ser.decode(outer, "sequence<UUID>", lookup)
+        if [type(x).__name__ for x in v] != [
+                type(br.nodes[u]).__name__ for u in ids + ids] or any(
+                    x is not br.nodes[u] for x, u in zip(v, ids + ids)):
+            out.append(("C07", "resolution-lost-after-reentrant-decode",
+                        "lookup called decode re-entrantly; outer result %r"
+                        % ([type(x).__name__ for x in v],)))
+    except Exception as e:  # noqa
+        out.append(("C07", "reentrant-decode-raises:" + type(e).__name__,
+                    repr(e)[:200]))
+    # a custom codec (private instance) that decodes another value itself
+    p = ser_mod.Serialization()
+
+    class Note(ser_mod.Codec):
+        @staticmethod
+        def decode(raw_bytes, *, serialization=None, subtypes=(),
+                   get_by_uuid=None):
+            p.decode(inner, "UUID", br.ir.get_by_uuid)
+            return raw_bytes.read(1)
+
+        @staticmethod
+        def encode(out_, item, *, serialization=None, subtypes=()):
+            out_.write(item)
+
+    p.codecs["verif_note"] = Note
+    try:
+        raw = (R.u64(3) + b"".join(b"n" + u.bytes for u in ids))
+        v = p.decode(raw, "sequence<tuple<verif_note,UUID>>",
+                     br.ir.get_by_uuid)
+        if any(x[1] is not br.nodes[u] for x, u in zip(v, ids)):
+            out.append(("C07", "resolution-lost-after-reentrant-decode",
+                        "custom codec decoded another value; outer result "
+                        "%r" % ([type(x[1]).__name__ for x in v],)))
+    except Exception as e:  # noqa
+        out.append(("C07", "reentrant-decode-raises:" + type(e).__name__,
+                    repr(e)[:200]))
+    return out
+
+
 def work(task):
     label, types, k = task
     n = 0
     bad = []
-    for prop, kind, detail in instance_isolation():
+    for prop, kind, detail in instance_isolation() + reentrancy_probe():
         bad.append((prop, kind, "string", "<codec table>", detail))
     ir_path = label.startswith("depth<=1")
     hangs = 0
@@ -799,15 +886,19 @@ def work_long(task):
     leafname, sizes = task
     n = 0
     bad = []
+    hangs = 0
     for t, v in long_cases(leafname, sizes):
         for idx in ((0, 1) if leafname in ("UUID", "Offset") else (0,)):
+            if hangs >= 2:
+                break  # enough evidence; do not sit out more timeouts
             n += 1
             try:
-                with common.time_limit(60):
+                with common.time_limit(30):
                     res = check_case(t, v, idx)
                     if len(v) in (64, 256, 1025) and idx == 0:
                         res = res + ir_path_case(t, v, idx)
             except (common.Hang, MemoryError) as e:
+                hangs += 1
                 res = [(p, "hang-or-unbounded-allocation:" + type(e).__name__,
                         str(e)) for p in ("C07", "C08")]
             for prop, kind, detail in res:
@@ -824,15 +915,34 @@ def work_leaf(task):
     table = leaf_table(name, full)
     n = 0
     bad = []
+    hangs = 0
     for i, v in enumerate(table):
+        if hangs >= 2:
+            break
         n += 1
-        for prop, kind, detail in check_case(t, v, i):
+        try:
+            with common.time_limit(20):
+                res = check_case(t, v, i)
+        except (common.Hang, MemoryError) as e:
+            hangs += 1
+            res = [(p_, "hang-or-unbounded-allocation:" + type(e).__name__,
+                    str(e)) for p_ in ("C07", "C08")]
+        for prop, kind, detail in res:
             if len(bad) < 40:
                 bad.append((prop, kind, name, repr(v)[:200], detail))
     seq = ("sequence", (t,))
     for lst in (list(table), list(reversed(table))):
+        if hangs >= 2:
+            break
         n += 1
-        for prop, kind, detail in check_case(seq, lst, 1):
+        try:
+            with common.time_limit(60):
+                res = check_case(seq, lst, 1)
+        except (common.Hang, MemoryError) as e:
+            hangs += 1
+            res = [(p_, "hang-or-unbounded-allocation:" + type(e).__name__,
+                    str(e)) for p_ in ("C07", "C08")]
+        for prop, kind, detail in res:
             if len(bad) < 40:
                 bad.append((prop, kind, R.show(seq), "<whole table>", detail))
     return name, len(table), n, bad
@@ -1058,6 +1168,8 @@ def run(ctx):
                                       chunksize=1):
         n_cases += n
         bad += b
+    if sum(1 for x in bad if x[1].startswith("hang-or-")) >= 6:
+        tasks = []  # the tree hangs on plain leaf values: report, stop
     long_sizes = LONG_SIZES_DENSE + (LONG_SIZES if ctx.tier != "quick"
                                      else [s_ for s_ in LONG_SIZES
                                            if s_ <= 1280 or s_ == 4097])
@@ -1069,10 +1181,16 @@ def run(ctx):
                 long_tasks.append((nm, [s_]))
     long_tasks.sort(key=lambda t: -max(t[1]))
     n_long = 0
+    def many_hangs():
+        return sum(1 for x in bad if x[1].startswith("hang-or-")) >= 6
+
     for name, n, b in common.pmap(work_long, long_tasks, chunksize=1):
         n_cases += n
         n_long += n
         bad += b
+        if many_hangs():
+            common.close_pool()
+            break
     capped = False
     done = 0
     for label, nt, n, b in common.pmap(work, tasks, chunksize=1):
@@ -1080,7 +1198,7 @@ def run(ctx):
         n_cases += n
         bad += b
         done += 1
-        if ctx.out_of_time(0.85):
+        if ctx.out_of_time(0.85) or many_hangs():
             capped = done < len(tasks)
             if capped:
                 common.close_pool()
